@@ -251,10 +251,80 @@ class FuncAnalysis:
         for node in fn.node.body:
             if isinstance(node, (ast.FunctionDef, ast.AsyncFunctionDef)):
                 self.local_funcs.add(node.name)
+        self.nested_fresh = self._nested_fresh_locals()
         self.block(fn.node.body, env)
         if not self.sum.returns.obj:
             self.sum.returns = AV_IMM  # returns None
         return self.sum
+
+    def _nested_fresh_locals(self):
+        """Locals that only ever hold a container created here whose *values* are containers created here
+        (groups = {A: [], B: []}; buckets = [[] for _ in ...]).  Indexing such a local yields one of those inner,
+        locally created containers -- an object of this function -- whatever has been put inside it meanwhile.
+        Conditions (syntactic, conservative): one binding by such a display/comprehension; never aliased, never
+        passed to a call as a whole, item stores only of locally created containers."""
+        fn = self.fn
+
+        def fresh_container(e):
+            if isinstance(e, (ast.List, ast.Dict, ast.Set, ast.ListComp, ast.DictComp, ast.SetComp)):
+                return True
+            return isinstance(e, ast.Call) and isinstance(e.func, ast.Name) and e.func.id in ("list", "dict", "set", "OrderedDict", "deque", "defaultdict") and len(e.args) <= 1
+
+        def nested_display(e):
+            if isinstance(e, ast.Dict):
+                return bool(e.values) and all(k is not None and fresh_container(v) for k, v in zip(e.keys, e.values))
+            if isinstance(e, (ast.List, ast.Tuple)):
+                return bool(e.elts) and all(fresh_container(v) for v in e.elts)
+            if isinstance(e, ast.DictComp):
+                return fresh_container(e.value)
+            if isinstance(e, ast.ListComp):
+                return fresh_container(e.elt)
+            if isinstance(e, ast.Call) and isinstance(e.func, ast.Name) and e.func.id == "defaultdict" and len(e.args) == 1 and isinstance(e.args[0], ast.Name) and e.args[0].id in ("list", "dict", "set"):
+                return True
+            return False
+        binds, bad = {}, set()
+        parent = {}
+        for n in ast.walk(fn.node):
+            for c in ast.iter_child_nodes(n):
+                parent[id(c)] = n
+        for n in ast.walk(fn.node):
+            if (isinstance(n, ast.Assign) and len(n.targets) == 1 and isinstance(n.targets[0], ast.Name)) or (isinstance(n, ast.AnnAssign) and isinstance(n.target, ast.Name) and n.value is not None):
+                nm = n.targets[0].id if isinstance(n, ast.Assign) else n.target.id
+                if nested_display(n.value):
+                    binds[nm] = binds.get(nm, 0) + 1
+                else:
+                    bad.add(nm)
+            elif isinstance(n, (ast.AugAssign, ast.For, ast.comprehension, ast.NamedExpr, ast.withitem)):
+                tgt = getattr(n, "target", None) or getattr(n, "optional_vars", None)
+                for x in (ast.walk(tgt) if tgt is not None else []):
+                    if isinstance(x, ast.Name):
+                        bad.add(x.id)
+        cands = {nm for nm, k in binds.items() if k == 1 and nm not in bad and nm not in fn.all_params}
+        for n in ast.walk(fn.node):
+            if isinstance(n, ast.Name) and n.id in cands and isinstance(n.ctx, ast.Load):
+                p = parent.get(id(n))
+                ok = False
+                if isinstance(p, ast.Subscript) and p.value is n:
+                    gp = parent.get(id(p))
+                    if isinstance(p.ctx, ast.Store):
+                        ok = isinstance(gp, ast.Assign) and fresh_container(gp.value)
+                    else:
+                        ok = True
+                elif isinstance(p, ast.Attribute) and p.value is n and p.attr in ("values", "items", "keys", "get", "setdefault", "__len__", "__contains__"):
+                    gp = parent.get(id(p))
+                    if p.attr == "setdefault":
+                        ok = isinstance(gp, ast.Call) and len(gp.args) == 2 and fresh_container(gp.args[1])
+                    else:
+                        ok = True
+                elif isinstance(p, ast.Call) and n in p.args and isinstance(p.func, ast.Name) and p.func.id in ("len", "sorted", "list", "iter", "enumerate", "bool"):
+                    ok = True
+                elif isinstance(p, (ast.For, ast.comprehension)) and p.iter is n:
+                    ok = True
+                elif isinstance(p, ast.Compare):
+                    ok = True
+                if not ok:
+                    cands.discard(n.id)
+        return cands
 
     # -- statements ----------------------------------------------------------
     def block(self, stmts, env) -> Optional[Dict[str, AV]]:
@@ -582,6 +652,8 @@ class FuncAnalysis:
             if base.obj <= IMM:
                 return AV(IMM if base.elem <= IMM else FRESH, base.elem)
             return AV(FRESH, base.elem)
+        if isinstance(e.value, ast.Name) and e.value.id in getattr(self, "nested_fresh", ()):
+            return AV(FRESH, base.elem)  # one of the inner containers created in this function
         return AV(base.elem, base.elem)
 
     def ev_Slice(self, e, env):
@@ -729,6 +801,8 @@ class FuncAnalysis:
                                 if r.startswith("p:"):
                                     self.sum.stores.add(r)
                 if m in ("pop", "popitem", "setdefault"):
+                    if m == "setdefault" and isinstance(f.value, ast.Name) and f.value.id in getattr(self, "nested_fresh", ()):
+                        return AV(FRESH, recv.elem)
                     return AV(recv.elem, recv.elem)
                 return AV_IMM
             if recv.is_imm():
@@ -737,6 +811,8 @@ class FuncAnalysis:
                 return AV(FRESH, recv.elem)
             if m in ("get",):
                 out = AV(recv.elem, recv.elem)
+                if isinstance(f.value, ast.Name) and f.value.id in getattr(self, "nested_fresh", ()):
+                    out = AV(FRESH, recv.elem)
                 for a in argavs[1:]:
                     out = out.join(a)
                 return out
